@@ -79,5 +79,5 @@ package bigmod
 //@   modifies nothing
 
 //@ func (*Modulus).BitLen trusted
-//@   ensures 8 * MSIZE(objof(self)) - 7 <= result && result <= 8 * MSIZE(objof(self))
+//@   ensures result == MBITS(objof(self)) && 8 * MSIZE(objof(self)) - 7 <= result && result <= 8 * MSIZE(objof(self))
 //@   modifies nothing
